@@ -174,6 +174,30 @@ func init() {
 	}
 }
 
+func init() {
+	// C05: tools-golang reads SPDX element identifiers from the raw JSON token without unescaping
+	KnownPredicates["spdx_escaped_identifiers"] = func(c *Case) bool {
+		if c.Kind != "oracle" || asStr(c.Op["op"]) != "layouts" {
+			return false
+		}
+		in, _ := c.Op["in"].(M)
+		if strings.Contains(asStr(in["src"]), "cdx") {
+			return false
+		}
+		seen := false
+		for _, m := range c.Messages {
+			if m == "(not minimised)" {
+				continue
+			}
+			if !strings.HasPrefix(m, "layout / repetition / explicit format changes the parse: re-encoding 4: err") {
+				return false
+			}
+			seen = true
+		}
+		return seen
+	}
+}
+
 // Covered returns the id of the first known finding whose predicate covers the case.
 func (kf *KnownFile) Covered(c *Case) string {
 	for _, k := range kf.Known {
